@@ -45,7 +45,52 @@ func GoBin() string {
 func goEnv() []string {
 	env := os.Environ()
 	env = append(env, "GOFLAGS=-mod=mod", "GOPROXY=off", "GOTOOLCHAIN=local")
+	if c := scratchCache(); c != "" {
+		env = append(env, "GOCACHE="+c)
+	}
 	return env
+}
+
+// scratchCache is a Go build cache of its own for everything compiled from scratch modules
+// (thousands of generated packages per thorough run). It lives outside /repo and /verif, is
+// recreated on demand and is wiped when it grows beyond maxScratchCacheKB, so that repeated
+// runs cannot fill the disk; the price of a wipe is one rebuild of the standard library.
+func scratchCache() string {
+	if v := os.Getenv("VERIF_GOCACHE"); v != "" {
+		return v
+	}
+	base := os.Getenv("VERIF_SCRATCH")
+	if base == "" {
+		base = os.TempDir()
+	}
+	return filepath.Join(base, "vgocc-gocache")
+}
+
+const maxScratchCacheKB = 12 << 20 // 12 GB
+
+func maintainScratchCache() {
+	dir := scratchCache()
+	os.MkdirAll(dir, 0777)
+	cf := filepath.Join(dir, ".vgocc-runs")
+	n := 0
+	if b, err := os.ReadFile(cf); err == nil {
+		fmt.Sscan(string(b), &n)
+	}
+	n++
+	os.WriteFile(cf, []byte(fmt.Sprint(n)), 0666)
+	if n%20 != 0 {
+		return
+	}
+	out, err := exec.Command("du", "-sk", dir).Output()
+	if err != nil {
+		return
+	}
+	kb := 0
+	fmt.Sscan(string(out), &kb)
+	if kb > maxScratchCacheKB {
+		os.RemoveAll(dir)
+		os.MkdirAll(dir, 0777)
+	}
 }
 
 // Workspace is one scratch directory (outside /repo and /verif), removed by Close.
@@ -73,6 +118,7 @@ func NewWorkspace() (*Workspace, error) {
 	if err != nil {
 		return nil, err
 	}
+	maintainScratchCache()
 	w := &Workspace{Dir: dir, Gocc: filepath.Join(dir, "bin", "gocc"), HookLog: filepath.Join(dir, "hook.log"), grams: map[string]*GenInfo{}}
 	if err := os.MkdirAll(filepath.Join(dir, "bin"), 0777); err != nil {
 		return nil, err
